@@ -119,5 +119,6 @@ fn main() {
         "replay" => driver::replay(args.get(2).map(|s| s.as_str()).unwrap_or_else(|| usage())),
         _ => usage(),
     };
+    boot::leave_private_cwd();
     std::process::exit(code);
 }
